@@ -371,6 +371,9 @@ def s7_cfg(repo_dir, S, F=None):
                                 consts_seen[tk(i + 1)] = True
     # the build around the source: no build script, no symlink under src/, and a manifest that cannot change what the analysed
     # configurations mean (profiles may tune optimisation, not overflow checks / debug assertions; no patched or target-specific deps)
+    for e_ in (".cargo", "rust-toolchain", "rust-toolchain.toml"):
+        if os.path.exists(os.path.join(repo_dir, e_)):
+            S.bad("S7", "cargo-config-in-tree", e_, "%s in the package directory configures the builds made *here* (the analysed one, cargo test) and nobody else's: the analysed configuration is not the users' configuration" % e_, e_)
     if os.path.exists(os.path.join(repo_dir, "build.rs")):
         S.bad("S7", "build-script", "build.rs", "the crate has a build script: it can emit cfg flags, environment variables and generated code that no analysed configuration reflects", "build.rs")
     for root, dirs, files in os.walk(os.path.join(repo_dir, "src")):
@@ -394,6 +397,9 @@ def s7_cfg(repo_dir, S, F=None):
         for k_ in ("path", "proc-macro", "crate-type", "name"):
             if k_ in (man.get("lib") or {}):
                 S.bad("S7", "manifest-key", "Cargo.toml:lib.%s" % k_, "Cargo.toml sets lib.%s: the library root is no longer src/lib.rs as analysed" % k_, "Cargo.toml")
+        for k_, v_ in (man.get("dependencies") or {}).items():
+            if not (k_ == "serde" and isinstance(v_, dict) and v_.get("optional") is True and not v_.get("path") and not v_.get("git")):
+                S.bad("S7", "manifest-dependency", "Cargo.toml:dependencies.%s" % k_, "Cargo.toml adds the dependency `%s`: code (macros, trait impls) from outside the analysed tree becomes part of the library (UNRECOGNISED)" % k_, "Cargo.toml")
         for pn_, prof_ in (man.get("profile") or {}).items():
             for k_ in (prof_ or {}):
                 if k_ not in ("lto", "codegen-units", "opt-level", "debug", "strip", "incremental", "split-debuginfo"):
